@@ -161,7 +161,7 @@ def check_histories(ctx, st):
         cases += [(kind, [("n",), ("r", 0), ("c", 0, 4)], "corpus"), (kind, [("n",), ("r", 0), ("d", 0)], "corpus"),
                   (kind, [("n",), ("c", 0, 0), ("k", 0), ("r", 0)], "corpus"),
                   (kind, [("n",), ("c", 0, 0), ("k", 0), ("k", 0), ("c", 2, 0), ("d", 1), ("c", 1, 0), ("r", 0), ("c", 1, 0), ("a", 2, 0), ("c", 2, 1)], "corpus")]
-    outs = run_driver(ctx, "C20", "\n".join(hist_input(k, 1, h) for k, h, _ in cases) + "\n")
+    outs = run_driver(ctx, "C20", [(hist_input(k, 1, h)) + "\n" for k, h, _ in cases])
     if outs is None or len(outs) != len(cases):
         ctx.broke("correspondence", "drv_C20 hist", "driver returned %s lines for %d histories; rc=%s %s" % (
             None if outs is None else len(outs), len(cases), getattr(ctx, "driver_rc", "?"), getattr(ctx, "driver_err", "")))
@@ -521,7 +521,7 @@ def counters_oracle(o, fields, have_log=True):
 
 def run_lines(ctx, what, lines, kinds):
     """batch run; if the driver dies, re-run every case in its own process so that the crashing input is identified"""
-    outs = run_driver(ctx, "C20", "\n".join(lines) + "\n", timeout=1500)
+    outs = run_driver(ctx, "C20", [l_ + "\n" for l_ in lines], timeout=1500)
     if outs is not None and len(outs) == len(lines) and getattr(ctx, "driver_rc", 0) == 0:
         return outs
     ctx.log("drv_C20 %s batch failed (rc=%s); re-running the %d cases one by one" % (what, getattr(ctx, "driver_rc", "?"), len(lines)))
